@@ -1126,3 +1126,60 @@ func semKey(f *Fn, call *ast.CallExpr) string {
 }
 
 type cfgBlock = cfg.Block
+
+// EqConsts unifies `switch subj { case K: }` and `if subj == K` / `subj != K`: it returns
+// the constants subj is known to equal (pos) and known to differ from (neg) at this point.
+// subj selects the subject expression.
+func (fs *FactSet) EqConsts(g *Fn, subj func(e ast.Expr) bool) (pos, neg []string) {
+	nameOf := func(e ast.Expr) string {
+		if n := constName(g, e); n != "" {
+			return n
+		}
+		if v, ok := g.ConstVal(e); ok {
+			return v
+		}
+		return ""
+	}
+	seenP, seenN := map[string]bool{}, map[string]bool{}
+	add := func(k string, isEq bool) {
+		if k == "" {
+			return
+		}
+		if isEq && !seenP[k] {
+			seenP[k] = true
+			pos = append(pos, k)
+		}
+		if !isEq && !seenN[k] {
+			seenN[k] = true
+			neg = append(neg, k)
+		}
+	}
+	for _, fa := range fs.Facts {
+		if fa.Kind != FCmp {
+			continue
+		}
+		if fa.Tag != nil {
+			if subj(fa.Tag) {
+				add(nameOf(fa.Expr), fa.Truth)
+			}
+			continue
+		}
+		be, ok := fa.Expr.(*ast.BinaryExpr)
+		if !ok || (be.Op != token.EQL && be.Op != token.NEQ) {
+			continue
+		}
+		var other ast.Expr
+		switch {
+		case subj(be.X):
+			other = be.Y
+		case subj(be.Y):
+			other = be.X
+		default:
+			continue
+		}
+		add(nameOf(other), (be.Op == token.EQL) == fa.Truth)
+	}
+	sort.Strings(pos)
+	sort.Strings(neg)
+	return
+}
